@@ -1246,8 +1246,8 @@ func TestProp(t *testing.T) {
 			enumerate(s, run, assign, 2, seps) && enumerate(s, run, mods, 2, seps)
 		if ok && run.Env.Thorough() {
 			a3, m3 := enumAlphabet(2)
-			s.Bounds += fmt.Sprintf("; all lists of length 3 over %d assignment and %d modification spellings, 4x4 separators", len(a3), len(m3))
-			_ = enumerate(s, run, a3, 3, enumSeps) && enumerate(s, run, m3, 3, enumSeps)
+			s.Bounds += fmt.Sprintf("; all lists of length 3 over %d assignment and %d modification spellings, 3x3 separators ('' ' ' ',')", len(a3), len(m3))
+			_ = enumerate(s, run, a3, 3, enumSeps[:3]) && enumerate(s, run, m3, 3, enumSeps[:3])
 		}
 	})
 }
